@@ -401,3 +401,27 @@ def lift(P, body, term, depth=0):
             base = ("field", base, c[2]) if c[0] == "field" else ("payload", c[1], base)
         return lift(P, parent, base, depth + 1)
     return body, t
+
+
+
+def touched_after_copy(P, body, local):
+    """where the value held in `local` (followed back through whole moves) is written to or mutably borrowed: places in the source, empty
+    when the value is used exactly as it was produced"""
+    touched = []
+    seen = set()
+    rl = local
+    while rl is not None and rl not in seen:
+        seen.add(rl)
+        nxt = None
+        for b2, i2, s2 in body.stmts():
+            rv2 = s2.get("rv")
+            if not rv2:
+                continue
+            if rv2["k"] in ("ref", "rawptr") and rv2.get("bk") != "shared" and rv2["place"][0] == rl:
+                touched.append(P.rel(s2["sp"]))
+            if tuple(s2["p"]) == (rl,) and rv2["k"] == "use" and op_place(rv2["op"]) and len(op_place(rv2["op"])) == 1:
+                nxt = op_place(rv2["op"])[0]
+            if s2["p"][0] == rl and len(s2["p"]) > 1:
+                touched.append(P.rel(s2["sp"]))
+        rl = nxt
+    return touched
